@@ -36,3 +36,18 @@ Theorem C16_tree : forall js s, jobs_ok js s ->
   (forall q, (forall a, In a js -> q <> dst a /\ q <> tmp a) -> install js s q = s q).
 Proof. exact install_complete. Qed.
 Print Assumptions C16_tree.
+
+(* The directory a path names to the operating system (Agents.resolve: symbolic links followed left to right, ".." applied
+   to the directory reached so far). The correspondence compares the documented directory (install_dir) and the directory
+   the CLI reports after resolving both this way. Two facts that pin the function down: *)
+
+(* in a tree without symbolic links, a path without ".." names the directory its components spell *)
+Theorem C16_resolution_without_links : forall todo fuel cur, length todo < fuel -> (forall c, In c todo -> c <> "..") ->
+  resolve fuel [] cur todo = Some ((rev todo ++ cur)%list).
+Proof. exact resolve_plain. Qed.
+Print Assumptions C16_resolution_without_links.
+
+(* ".." leaves the directory REACHED so far - after links have been followed - whatever name led there *)
+Theorem C16_dotdot_after_links : forall fuel links cur r, resolve (S fuel) links cur (".." :: r) = resolve fuel links (tl cur) r.
+Proof. exact resolve_dotdot. Qed.
+Print Assumptions C16_dotdot_after_links.
